@@ -117,6 +117,10 @@ func (r *Reader) readBlock() error {
 func (r *Reader) Read(p []byte) (n int, err error) {
 	if r.pos >= int64(len(r.data)) {
 		if err := r.readBlock(); err != nil {
+			// Drop the buffer: it may hold the previous block (already
+			// delivered) or zeroed/partially decoded data of the rejected
+			// block, which must not be handed out by subsequent reads.
+			r.data = r.data[:0]
 			return 0, errors.Wrap(err, "read next block")
 		}
 	}
